@@ -18,7 +18,7 @@ from typing import Any, Dict, List, Optional, Sequence, Set, Tuple
 from vf import reader, tables
 from vf.common import CaseResult, Check, Scratch, rng_for
 from vf.interpose import GlobalPatch, Interposer, patch_datetime
-from vf.scenario import ClientLog, FlipLog, Instance, Template
+from vf.scenario import ClientLog, FlipLog, Instance, Template, s3_weather
 from vf.sched import (PCT, RandomWalk, ReplayNames, Scheduler, SchedEnv, Scripted, adopt,
                       explore_bounded)
 
@@ -81,6 +81,7 @@ class Exec:
             if inst.store is not None:
                 inst.store.after.append(flips.s3_after)
                 inst.store.keep_log = False
+                s3_weather(case.get("weather"), inst.store, sched)
             checker = FlipChecker(blobs, tv0, clog, flips, seeds)
             sched.monitors.append(checker.on_step)
             try:
@@ -300,7 +301,9 @@ class C01(Check):
             "delete_snapshot}) x topology {shared Table handle, separate handles} x backend {local, CAS-S3 double} x "
             "clock {real, frozen, coarse}: bounded-preemption DFS enumerates ALL schedules with <=k context switches at "
             "L1-operation (local) / S3-request granularity (quick k=1 everywhere + k=2 on key pairs; thorough k=2 "
-            "everywhere, k=3 on key pairs); 3-4 committers under PCT(d=3) and random walks. distinct = distinct gate-level "
+            "everywhere, k=3 on key pairs); 3-4 committers under PCT(d=3) and random walks; CAS-S3 cells additionally with "
+            "'weather' on one committer's first pointer PUT (503 before effect | applied + lost response | applied + 412 on "
+            "the transport's retry). distinct = distinct gate-level "
             "trace; non-trivial = execution with >=1 lock wait / commit back-off / CAS conflict")
     assumptions = [
         "pointer-flip order is observed at the storage boundary (successful write of metadata.version-hint.text)",
@@ -331,6 +334,10 @@ class C01(Check):
                 for sh in range(nsh_big):
                     yield {"mode": "dfs", "ops": [a, b], "topology": topo, "backend": be, "clock": clock, "k": 2,
                            "shard": sh, "nshards": nsh_big}
+            for w in ("503_before", "lost_response", "applied_412"):
+                for (a, b) in [("append", "append"), ("delete", "append"), ("append", "delsnap")]:
+                    yield {"mode": "dfs", "ops": [a, b], "topology": "separate", "backend": "s3", "clock": "real", "k": 1,
+                           "shard": 0, "nshards": 1, "weather": w}
             nrand = 48
         else:
             for (a, b) in pairs:
@@ -345,6 +352,12 @@ class C01(Check):
                     for sh in range(64):
                         yield {"mode": "dfs", "ops": [a, b], "topology": topo, "backend": be, "clock": clock, "k": 3,
                                "shard": sh, "nshards": 64, "max_runs": 4000}
+            for w in ("503_before", "lost_response", "applied_412"):
+                for (a, b) in pairs:
+                    for topo in ("separate", "shared"):
+                        for sh in range(4):
+                            yield {"mode": "dfs", "ops": [a, b], "topology": topo, "backend": "s3", "clock": "real", "k": 2,
+                                   "shard": sh, "nshards": 4, "weather": w, "max_runs": 3000}
             nrand = 600
         for i in range(nrand):
             rng = rng_for(seed, "c01r", i)
@@ -352,7 +365,8 @@ class C01(Check):
             ops = [rng.choice(OPKINDS) for _ in range(n)]
             topo, be, clock = rng.choice(cells)
             yield {"mode": rng.choice(["pct", "pct", "random"]), "ops": ops, "topology": topo, "backend": be,
-                   "clock": clock, "seed": seed * 100000 + i, "runs": 6 if tier == "quick" else 12}
+                   "clock": clock, "seed": seed * 100000 + i, "runs": 6 if tier == "quick" else 12,
+                   "weather": rng.choice([None, None, "503_before", "lost_response", "applied_412"]) if be == "s3" else None}
         if tier == "thorough":
             for i in range(8):
                 yield {"mode": "procs", "nproc": 4 + (i % 3) * 2, "commits": 25, "seed": seed * 1000 + i}
@@ -406,6 +420,8 @@ class C01(Check):
             return
         res.count("executions_ok")
         res.count("flips_checked", r["flips"])
+        if r["counters"].get("weather_fired"):
+            res.count("executions_with_s3_weather")
         if r["contention"]:
             res.count("contended_executions")
             res.key(r["trace_key"])
